@@ -101,7 +101,7 @@ Definition rtext_eqb (a b : rtext) : bool :=
   match a, b with
   | TxNone, TxNone | TxBadCommand, TxBadCommand | TxParse, TxParse
   | TxServerError, TxServerError | TxAuth, TxAuth | TxCompile, TxCompile
-  | TxOther, TxOther => true
+  | TxNotSupported, TxNotSupported | TxOther, TxOther => true
   | _, _ => false
   end.
 Definition cond_eqb (a b : cond) : bool :=
@@ -227,3 +227,52 @@ Fixpoint ins (b : bytes) (k : nat) (c : N) : bytes :=
 Definition getscript_lit (name : bytes) : bytes :=
   ([71;69;84;83;67;82;73;80;84;32;123]%N ++ Decimal.dec_of_N (N.of_nat (length name))
    ++ [43;125;13;10]%N ++ name ++ [13;10]%N).
+
+(* ------------------------------- 4. whole programs on the maildir backend *)
+(* same shape as prog_case; a store is the content of dovecot.sieve, None
+   when the file does not exist *)
+Definition mstate_eqb : mstate -> mstate -> bool := option_eqb bytes_eqb.
+
+Record mprog_case := mk_mcase {
+  mc_cfg : config;
+  mc_stores : list (user * mstate);
+  mc_sasl : sasl_table;
+  mc_compiles : list (bytes * bool);
+  mc_conns : nat;
+  mc_greeting : resp;
+  mc_events : list (nat * bytes * list bytes);
+  mc_expect : list (option resp * list (user * mstate)) }.
+
+Definition mobs_update (cur : stores mstate) (delta : list (user * mstate)) : stores mstate :=
+  fold_left (fun acc p => set_store mstate acc (fst p) (snd p)) delta cur.
+Definition mstores_match (users : list user) (st obs : stores mstate) : bool :=
+  forallb (fun u => mstate_eqb (get_store mstate m_init st u) (get_store mstate m_init obs u))
+          users.
+
+Fixpoint diag_msteps (mrun : mstate -> cmd -> resp * mstate)
+         (sasl : bytes -> option bytes -> list bytes -> auth_outcome)
+         (users : list user) (obs : stores mstate)
+         (w : world mstate) (i : nat) (evs : list (nat * bytes * list bytes))
+         (exp : list (option resp * list (user * mstate)))
+  : option (nat * option resp * list (user * mstate)) :=
+  match evs, exp with
+  | [], [] => None
+  | (k, buf, conts) :: evs', (o, delta) :: exp' =>
+    let '(o', w') := step sasl mstate mrun m_init w (k, input_of_bytes buf conts) in
+    let obs' := mobs_update obs delta in
+    if option_eqb resp_eqb o' o && mstores_match users (w_stores mstate w') obs'
+    then diag_msteps mrun sasl users obs' w' (S i) evs' exp'
+    else Some (i, o', map (fun u => (u, get_store mstate m_init (w_stores mstate w') u)) users)
+  | _, _ => Some (i, None, [])
+  end.
+
+Definition diag_mprog (c : mprog_case) :=
+  let cfg := mc_cfg c in
+  diag_msteps (mstate_run cfg (compiles_of (mc_compiles c))) (sasl_of (mc_sasl c))
+    (map fst (mc_stores c)) (mc_stores c)
+    (mk_world mstate (mc_stores c) (repeat (conn_init cfg) (mc_conns c))) 0
+    (mc_events c) (mc_expect c).
+
+Definition chk_mprog (c : mprog_case) : bool :=
+  resp_eqb (caps_resp (conn_init (mc_cfg c))) (mc_greeting c)
+  && match diag_mprog c with None => true | Some _ => false end.
